@@ -2,64 +2,88 @@
   C12  A session that ends — at any point, for any reason — releases everything it held.
 
   Full statement: for every reachable session state, the dispatcher's `finally` leaves nothing behind, and
-  `Server.close()` completes leaving nothing behind.  On the pinned tree this is FALSE at three program
-  points (negative witnesses below, replayed against the real code by harness/props/c12.py); the
-  `_partial` theorems exclude exactly those points.
+  `Server.close()` completes leaving nothing behind.  On the pinned tree this was FALSE at three program
+  points.  Two are repaired in /repo (F6: a864f95, F8: eb5160b) and `finalize_releases_all` now holds for EVERY
+  state, resting on two facts the translator reads off the source (`stream_first`, `port_back`); the old
+  shapes are kept as statements about `leftAfterFinallyWith false _` / `_ false`.  The third (F12, a connection
+  accepted but not yet dispatched when `Server.close()` runs) is still open: `close_hangs_on_undispatched`,
+  and `server_close_completes_partial` excludes exactly it.
 -/
 import AioftpModel.Model.Lifecycle
 
 namespace C12
 open Model Model.Lifecycle Generated
 
-/-- the generated fact the proofs case-split on -/
-theorem cancelled_not_oserror : cancelledIsOSError = false := by decide
+/-- the generated facts the proofs rest on: the file workers enter the stream first, and a cancelled listener
+    start-up gives its port back -/
+theorem stream_first : streamEnteredBeforeOpen = true := by decide
+theorem port_back : cancelReturnsPort = true := by decide
 
-/-- **finalize_releases_all_partial**: from ANY state that is not at one of the two crash points, the
-    `finally` block leaves an empty ledger (control, data, listener, port, files, tasks, slots, table entry). -/
-theorem finalize_releases_all_partial (s : Sess) (h : atCrashPoint s = false) :
-    leftAfterFinally s = [] := by
-  unfold atCrashPoint at h
-  simp only [Bool.or_eq_false_iff, beq_eq_false_iff_ne] at h
-  unfold leftAfterFinally
+/-- **finalize_releases_all** (full strength): from ANY session state — every listener phase, every worker
+    program counter, parked data or not, logged in or not — the dispatcher's `finally` leaves an empty ledger
+    (control, data, listener, port, files, tasks, slots, table entry). -/
+theorem finalize_releases_all (s : Sess) : leftAfterFinally s = [] := by
+  unfold leftAfterFinally leftAfterFinallyWith
+  rw [stream_first, port_back]
   rcases s with ⟨d, c, l, p, w, a, u⟩
-  simp only at h
   cases l with
   | none => cases w with
     | none => rfl
-    | some w' => rcases w' with ⟨pc⟩; cases pc <;> simp_all
-  | starting t => cases t with
-    | true => simp at h
-    | false => cases w with
-      | none => rfl
-      | some w' => rcases w' with ⟨pc⟩; cases pc <;> simp_all
+    | some w' => rcases w' with ⟨pc⟩; cases pc <;> rfl
+  | starting t => cases t <;> (cases w with
+    | none => rfl
+    | some w' => rcases w' with ⟨pc⟩; cases pc <;> rfl)
   | listening t => cases w with
     | none => rfl
-    | some w' => rcases w' with ⟨pc⟩; cases pc <;> simp_all
+    | some w' => rcases w' with ⟨pc⟩; cases pc <;> rfl
 
-/-- every reachable state: same statement by way of `run` (non-crash-point end states) -/
-theorem finalize_releases_all_reachable (evs : List Ev) (h : atCrashPoint (run evs) = false) :
-    leftAfterFinally (run evs) = [] :=
-  finalize_releases_all_partial _ h
+/-- every reachable state, by way of `run` -/
+theorem finalize_releases_all_reachable (evs : List Ev) : leftAfterFinally (run evs) = [] :=
+  finalize_releases_all _
 
-/-- **negative witness 1** (F6 family): a session cut while the transfer worker awaits the backend `open`
-    keeps the data socket the worker had taken out of the session. -/
-theorem leak_inside_open :
+/-- the crash points of the pinned tree are reachable (so the statement above is not vacuous there) and clean now -/
+theorem crash_points_clean :
     let s := run [.dispatch, .login, .pasvStart false, .pasvReady, .dataConnect, .transfer true, .takeData]
-    atCrashPoint s = true ∧ leftAfterFinally s = [.workerData] := by decide
+    let t := run [.dispatch, .login, .pasvStart true]
+    atCrashPoint s = true ∧ leftAfterFinally s = [] ∧ atCrashPoint t = true ∧ leftAfterFinally t = [] := by decide
 
-/-- **negative witness 2** (F8): a session cut while its passive listener is being opened loses the pool port. -/
-theorem port_lost_inside_startup :
-    let s := run [.dispatch, .login, .pasvStart true]
-    atCrashPoint s = true ∧ leftAfterFinally s = [.poolPort] := by decide
+/-- **old_order_leaks_inside_open** (what finding F6 was in this model): with the file item entered first, a
+    session cut while the worker awaits the backend `open` keeps the data socket. -/
+theorem old_order_leaks_inside_open (portBack : Bool) :
+    let s := run [.dispatch, .login, .pasvStart false, .pasvReady, .dataConnect, .transfer true, .takeData]
+    leftAfterFinallyWith false portBack s = [.workerData] := by cases portBack <;> decide
 
-/-- without a port pool the same cut loses nothing -/
-theorem startup_cut_without_pool_is_clean :
-    leftAfterFinally (run [.dispatch, .login, .pasvStart false]) = [] := by decide
+/-- **no_cancel_clause_loses_port** (what finding F8 was): without a clause for the cancellation, a session cut
+    while its passive listener is being opened loses the pool port. -/
+theorem no_cancel_clause_loses_port (streamFirst : Bool) :
+    leftAfterFinallyWith streamFirst false (run [.dispatch, .login, .pasvStart true]) = [.poolPort] := by
+  cases streamFirst <;> decide
 
-/-- **server_close_completes_partial**: if every session's dispatcher has started and none is at a crash
-    point, `Server.close()` completes and leaves nothing. -/
+/-- exactness: the ledger is empty for EVERY state iff both source facts hold -/
+theorem clean_iff (a b : Bool) : (∀ s, leftAfterFinallyWith a b s = []) ↔ (a = true ∧ b = true) := by
+  constructor
+  · intro h
+    have h1 := h (run [.dispatch, .login, .pasvStart false, .pasvReady, .dataConnect, .transfer true, .takeData])
+    have h2 := h (run [.dispatch, .login, .pasvStart true])
+    cases a <;> cases b <;> simp_all (config := {decide := true}) [leftAfterFinallyWith, run, step, undispatched]
+  · rintro ⟨rfl, rfl⟩ s
+    unfold leftAfterFinallyWith
+    rcases s with ⟨d, c, l, p, w, a, u⟩
+    cases l with
+    | none => cases w with
+      | none => rfl
+      | some w' => rcases w' with ⟨pc⟩; cases pc <;> rfl
+    | starting t => cases t <;> (cases w with
+      | none => rfl
+      | some w' => rcases w' with ⟨pc⟩; cases pc <;> rfl)
+    | listening t => cases w with
+      | none => rfl
+      | some w' => rcases w' with ⟨pc⟩; cases pc <;> rfl
+
+/-- **server_close_completes_partial**: if every session's dispatcher has started, `Server.close()`
+    completes and leaves nothing (what is missing for the full statement: finding F12 below). -/
 theorem server_close_completes_partial (ss : List Sess)
-    (hd : ∀ s ∈ ss, s.dispatched = true) (hc : ∀ s ∈ ss, atCrashPoint s = false) :
+    (hd : ∀ s ∈ ss, s.dispatched = true) :
     serverClose ss = ([], true) := by
   unfold serverClose
   have h1 : ss.all (·.dispatched) = true := by simpa using hd
@@ -67,7 +91,7 @@ theorem server_close_completes_partial (ss : List Sess)
     rw [List.flatMap_eq_nil_iff]
     intro s hs
     rw [if_pos (hd s hs)]
-    exact finalize_releases_all_partial s (hc s hs)
+    exact finalize_releases_all s
   simp [h1, h2]
 
 /-- **negative witness 3** (F12): a connection accepted whose dispatcher has not started yet is invisible
@@ -75,12 +99,10 @@ theorem server_close_completes_partial (ss : List Sess)
 theorem close_hangs_on_undispatched :
     (serverClose [undispatched]).2 = false ∧ (serverClose [undispatched]).1 ≠ [] := by decide
 
-/-- a vanished peer is always cleaned up outside the two crash points, dispatched or not -/
-theorem peer_vanish_clean (s : Sess) (h : atCrashPoint s = false) : peerVanish s = [] := by
+/-- a vanished peer is always cleaned up, dispatched or not, at every program point -/
+theorem peer_vanish_clean (s : Sess) : peerVanish s = [] := by
   unfold peerVanish
-  apply finalize_releases_all_partial
-  unfold atCrashPoint at h ⊢
-  simpa using h
+  exact finalize_releases_all _
 
 /-- stale data connections: PASV/EPSV again lets go of a parked data connection -/
 theorem stale_data_replaced (s : Sess) : (step s .pasvAgain).parked = false := rfl
